@@ -63,6 +63,12 @@ def _validate(vtype, val, name):
         itype = vtype.__args__[0]
         if itype != func_xltypes.XlArray:
             val = flatten(val)
+            if getattr(itype, '__origin__', None) != typing.Union:
+                # An error among the values of an argument list or range is
+                # the result (the left-most one), it is not skipped.
+                for item in val:
+                    if isinstance(item, xlerrors.ExcelError):
+                        raise item
         return tuple(filter(
             lambda x: x is not None,
             [_safe_validate(itype, item, name) for item in val]
